@@ -280,6 +280,30 @@ def %(n)s(x, y, b):
 """ % {"n": name, "lim": r.randrange(0, 300), "lim2": r.randrange(0, 300), "c1": c1, "c2": c2, "e1": e1, "e2": e2, "e3": e3,
        "e4": e4, "body": body}, self.nb
 
+    def buffer_program(self, name):
+        """the buffer idioms of the SDO server / block streams on a byte string of symbolic length: bytearray copies,
+        extend, del of a prefix, [:7] slices, symbolic slice bounds, length comparisons, segment loops"""
+        r = self.r
+        lines = ["def %s(x, y, b):" % name, "    buf = bytearray(b)", "    out = bytearray()", "    acc = []", "    n = len(buf)"]
+        k1, k2 = r.randrange(0, 9), r.randrange(0, 9)
+        ops = [
+            ["    seg = buf[:7]", "    del buf[:7]", "    out.extend(seg)", "    acc.append(len(seg))", "    acc.append(len(buf))"],
+            ["    k = abs(x) %% %d" % (k1 + 1), "    out.extend(buf[k:k + %d])" % k2, "    acc.append(len(out))"],
+            ["    if len(buf) > %d:" % k1, "        del buf[:%d]" % min(k1, 3), "        acc.append(buf[0])", "    else:", "        acc.append(-1)"],
+            ["    last = 8 - ((y >> 1) & 7)", "    out.extend(bytes(b)[1:last])", "    acc.append(last)"],
+            ["    if not buf:", "        acc.append(0)", "    else:", "        acc.append(buf[len(buf) - 1])"],
+            ["    size = len(buf)", "    if 0 < size <= 4:", "        acc.append((4 - size) << 2)", "    else:", "        acc.append(size & 0xFF)"],
+            ["    j = 0", "    while j < 2 and len(buf) > 0:", "        out.extend(buf[:%d])" % (k2 % 4 + 1), "        del buf[:%d]" % (k2 % 4 + 1), "        j += 1"],
+            ["    buf.extend(b[%d:%d])" % (k1 % 4, k1 % 4 + k2 % 5), "    acc.append(len(buf) - n)"],
+            ["    m = min(len(buf), 7)", "    req = bytearray(8)", "    req[0] = (7 - m) << 1", "    req[1:m + 1] = buf[0:m]", "    out.extend(req)"],
+            ["    if bytes(buf[:2]) == b[:2]:", "        acc.append(1)", "    else:", "        acc.append(2)"],
+            ["    acc.append(int.from_bytes(bytes(buf[:%d]), 'little'))" % (k1 % 5)],
+        ]
+        for op in r.sample(ops, r.randrange(2, 6)):
+            lines += op
+        lines.append("    return (tuple(acc), bytes(out), bytes(buf), n)")
+        return "\n".join(lines) + "\n", self.nb
+
     def program(self, name):
         body = self.stmts(1, 0)
         ret = "    return (%s, tuple(acc), out, (d.get(0, -1), d.get(1, -1), d.get(2, -1), d.get(3, -1)))" % ", ".join(self.r.sample(self.ints, min(3, len(self.ints))))
@@ -337,7 +361,8 @@ def main():
     src = ["import struct\n"]
     for i in range(n):
         g = Gen(rng)
-        text, nb = g.class_program("f%d" % i) if i % 4 == 3 else g.program("f%d" % i)
+        text, nb = (g.class_program("f%d" % i) if i % 4 == 3 else
+                    g.buffer_program("f%d" % i) if i % 6 == 2 else g.program("f%d" % i))
         progs.append((text, nb))
         src.append(text)
     with open(path, "w") as f:
